@@ -1306,9 +1306,21 @@ class C02(Check):
         # in the library whose factor agrees to REL_PHYS; volumes/pore volumes are products of 3-5 such numbers
         REL = 1e-11
         ref = None
-        for s in R.SYSTEMS:
+        # in half of the cases ONE Parser object reads the four decks in turn, in an order that varies from case to case
+        # (keyword / item objects belong to the Parser: nothing learnt from a deck in one unit system may reach the next)
+        import hashlib as _h
+        hv = int(_h.sha256(repr(sorted(m.items(), key=lambda kv: kv[0])).encode()).hexdigest()[:8], 16)
+        shared = bool(hv & 1)
+        systems = list(R.SYSTEMS)
+        if shared:
+            rot = (hv >> 1) % len(systems)
+            systems = systems[rot:] + systems[:rot]
+            if (hv >> 4) & 1:
+                systems.reverse()
+            ctx.label("M:one-parser-for-the-four-unit-systems")
+        for si_, s in enumerate(systems):
             text = render_model(m, s)
-            o = ctx.P.call("units_model", deck=text)
+            o = ctx.P.call("units_model", deck=text, shared_parser=shared, reset_parser=(shared and si_ == 0))
             if o["units"] != SYSNAME[s]:
                 return V("M: unit system of the EclipseState", [s, o["units"]])
 
